@@ -95,7 +95,8 @@ def coverage(fs, body, walker_names):
                 elif 'meta' in r.path and any(q.startswith('as Command') for q in r.path):
                     kinds.add('command-meta')
                 else:
-                    kinds.add('child')
+                    # `match xs.first() { Some(x) => walk(x), None => .. }` is `xs.first().and_then(walk)` written out
+                    kinds.add('first' if through_first else 'child')
         # item handling: arm of Meta::Item
         for v in vs:
             out[v] = '+'.join(sorted(kinds)) if kinds else ('item' if v == 'Item' else 'none')
